@@ -9,3 +9,4 @@ CONSTANTS
   AgreeTab = 6
   MaxLen = 5
   Dups = FALSE
+  Slim = FALSE
